@@ -84,10 +84,13 @@ func (c *Connect) Len() int {
 // bytes decoded, and whether there have been any errors during the process.
 func (c *Connect) Decode(src []byte) (int, error) {
 	// decode header
-	total, _, _, err := decodeHeader(src, CONNECT)
+	total, _, rl, err := decodeHeader(src, CONNECT)
 	if err != nil {
 		return total, err
 	}
+
+	// get end of packet
+	end := total + rl
 
 	// read protocol string
 	protoName, n, err := readLPBytes(src[total:], false, CONNECT)
@@ -211,6 +214,11 @@ func (c *Connect) Decode(src []byte) (int, error) {
 		if err != nil {
 			return total, err
 		}
+	}
+
+	// check for leftover bytes
+	if total < end {
+		return total, makeError(CONNECT, "leftover bytes after decoding packet")
 	}
 
 	return total, nil
